@@ -428,6 +428,67 @@ func runGrefcount(c *Ctx) {
 			}
 		})
 	}
+	// --- AddRefPromise: the reference callback mirrors every notification into the promise container —
+	// a result when there is one, and an EMPTY container when the value is gone (a consumer that
+	// awaits in between must block for the next value, not be handed the released one)
+	if d := c.declByName("R12", "refcount", "RefCount", "AddRefPromise"); d != nil {
+		name := core.FuncName(d.Obj)
+		for li, l := range escapingLits(c, d) {
+			if l.Type.Params.NumFields() != 3 {
+				continue
+			}
+			lname := sprintf("%s.callback#%d", name, li+1)
+			var resolvedParam *types.Var
+			for _, f := range l.Type.Params.List {
+				for _, n := range f.Names {
+					if v, _ := d.Pkg.TypesInfo.Defs[n].(*types.Var); v != nil && isBoolType(v.Type()) && resolvedParam == nil {
+						resolvedParam = v
+					}
+				}
+			}
+			if resolvedParam == nil {
+				c.MissingAnchor("R12", lname+": the resolved flag of the reference callback")
+				continue
+			}
+			c.Walk("R12", &core.Config{Follow: func(f *types.Func) bool { return pkgFollow(f) && !f.Exported() }}, core.Entry{Lit: l, Pkg: d.Pkg, Outer: d, Name: lname}, func(p *core.Path) {
+				if p.End != core.EndReturn {
+					return
+				}
+				g := prepare(c, p)
+				emptied, resulted := false, false
+				for _, ev := range p.Events {
+					if ev.Kind != core.KCall || ev.Callee == nil {
+						continue
+					}
+					if rn := core.RecvNamed(ev.Callee); rn == nil || rn.Obj().Name() != "PromiseContainer" {
+						continue
+					}
+					switch ev.Callee.Name() {
+					case "SetPromise":
+						if len(ev.Call.Args) == 1 && isNilExpr(ev.Call.Args[0], ev.Frame) {
+							emptied = true
+						}
+					case "SetResult":
+						resulted = true
+					}
+				}
+				lits := g.litsBefore(len(p.Events), false)
+				gone, _ := implies(lits, fnot(fld(c.Role(resolvedParam))))
+				have, _ := implies(lits, fld(c.Role(resolvedParam)))
+				if gone {
+					a.note("R12", lname+"/invalidation-empties-promise", l.Pos(), !emptied,
+						"a notification that the value is gone empties the consumer's promise container",
+						"the reference callback is told the value is gone on a path that does not empty the promise container (SetPromise(nil)): Wait/Resolve callers that await next are handed the value that was just released", p)
+				}
+				if have {
+					a.note("R12", lname+"/value-sets-result", l.Pos(), !resulted,
+						"a notification carrying a value or error sets it as the container's result",
+						"the reference callback receives a value or error on a path that does not set it as the promise container's result", p)
+				}
+			})
+			a.expect("R12", lname+"/invalidation-empties-promise", 1, "the !resolved branch of the AddRefPromise callback")
+		}
+	}
 	releasedOnlyViaOnce(c, a)
 	_ = shutdownCancels
 	// --- Access
